@@ -14,6 +14,8 @@ obs[1] = ref result    vs driver line `spec`    (Lean spec ≡ Python reference:
 obs[2] = Safe / inFragment, Python mirror vs Lean
 obs[3..6] = the same two pairs for the SAME prepared query evaluated again: after the data object was changed in place
          (case["ds2"]) and on another Graph / Dataset object with the same graph names (case["ds3"])
+obs[-2] = the `lazy` / `_vars` annotations on rdflib's tree vs the Lean model of `analyse` / `_addVars` (Analysis.lean)
+obs[-1] = impl result vs the Lean evaluator on the tree re-annotated by the Lean analysis (`amodel`)
 viol   = impl ≠ ref   (the property itself, decided without Lean; tags reeval-… / other-… for the re-evaluations)
 """
 import atexit
@@ -439,6 +441,16 @@ def run_impl(case):
     # the in-scope variables to be present.
     n_elts = len(q["where"][1])
     obs = [obs_pairs[0][0], obs_pairs[0][1], safe_line] + [x for pr in obs_pairs[1:] for x in pr]
+    # round g: the annotations `analyse` / `_addVars` left on rdflib's tree vs the Lean model of the two passes run on the
+    # same tree; and rdflib's answer vs the Lean evaluator on the tree as the Lean analysis annotates it
+    try:
+        annot = G.annot_line(G.query_pattern(G.parse_sx(alg)))
+    except Exception as e:
+        annot = f"annot-error {type(e).__name__}"
+    obs += [annot, obs_pairs[0][0]]
+    st["annotated_nodes"] = max(0, len(annot.split(" ")) - 1)
+    st["lazy_joins"] = annot.count("J1")
+    st["strict_joins"] = annot.count("J0")
     return {"obs": obs, "viol": viol,
             "nontrivial": nonempty and (n_elts >= 2 or any(x[0] != "tri" for x in q["where"][1])),
             "key": text + "|" + G.sx_dataset(ds), "stats": st}
@@ -474,7 +486,8 @@ def model_lines(case):
         _prefetch()
     n = G.nvars(q)
     alg = _algebra_text(G.to_sparql(q))
-    lines = ["ds " + G.sx_dataset(ds), f"model {n} {alg}", f"spec {n} {G.sx_query(q)}", f"safe {alg}"]
+    lines = ["ds " + G.sx_dataset(ds), f"model {n} {alg}", f"spec {n} {G.sx_query(q)}", f"safe {alg}", f"annot {alg}",
+             f"amodel {n} {alg}"]
     if "ds2" in case and "ds3" in case:
         for k in ("ds2", "ds3"):
             lines += ["ds " + G.sx_dataset(case[k]), f"model {n} {alg}", f"spec {n} {G.sx_query(q)}"]
@@ -517,9 +530,11 @@ def _recanon(line, star):
 def select_model_obs(case, out):
     q = case["q"]
     star = q["form"] == "select" and q["proj"] is None
+    # out: 0 ds, 1 model, 2 spec, 3 safe, 4 annot, 5 amodel [, 6 ds2, 7 model, 8 spec, 9 ds3, 10 model, 11 spec]
     sel = [_recanon(out[1], star), _recanon(out[2], star), out[3]]
-    if len(out) >= 10:
-        sel += [_recanon(out[5], star), _recanon(out[6], star), _recanon(out[8], star), _recanon(out[9], star)]
+    if len(out) >= 12:
+        sel += [_recanon(out[7], star), _recanon(out[8], star), _recanon(out[10], star), _recanon(out[11], star)]
+    sel += [out[4], _recanon(out[5], star)]
     return sel
 
 
